@@ -103,6 +103,23 @@ func genC03(e *emitter, tier string) {
 	e.emit(opCase("special", "Sub", nil, []*TJ{vals("u32", []int{2}, 0, 5), vals("u32", []int{2}, 1, 7)}, nil))
 	e.emit(opCase("special", "Div", nil, []*TJ{vals("i32", []int{4}, -7, 7, -7, 7), vals("i32", []int{4}, 2, -2, -2, 2)}, nil))
 	e.emit(opCase("special", "Div", nil, []*TJ{vals("i32", []int{1}, -2147483648), vals("i32", []int{1}, -1)}, nil))
+	// large operands (beyond the sizes at which kernels go block-wise / parallel; not multiples of block sizes)
+	largeNs := []int{9001}
+	if tier == "thorough" {
+		largeNs = []int{9001, 12345}
+	}
+	for _, n := range largeNs {
+		ia := func(dt string, sh []int, m, o int) *TJ { return seqT(dt, sh, func(i int) float64 { return float64((i*5+o)%m - m/2) }) }
+		for _, op := range []string{"Add", "Sub", "Mul", "Less", "Equal", "GreaterOrEqual"} {
+			e.emit(opCase("large", op, nil, []*TJ{ia("f32", []int{n}, 41, 1), ia("f32", []int{n}, 17, 3)}, nil))
+			e.emit(opCase("large", op, nil, []*TJ{ia("i64", []int{3, n / 3}, 41, 1), ia("i64", []int{n / 3}, 17, 3)}, nil))
+			e.emit(opCase("large", op, nil, []*TJ{ia("i32", []int{n / 3}, 41, 2), ia("i32", []int{3, n / 3}, 17, 5)}, nil))
+		}
+		e.emit(opCase("large", "Div", nil, []*TJ{ia("i32", []int{n}, 201, 1), seqT("i32", []int{n}, func(i int) float64 { return float64(i%7 + 1) })}, nil))
+		for _, op := range logicOps {
+			e.emit(opCase("large", op, nil, []*TJ{seqT("bool", []int{n}, func(i int) float64 { return float64((i / 3) % 2) }), seqT("bool", []int{n}, func(i int) float64 { return float64((i / 5) % 2) })}, nil))
+		}
+	}
 	// IEEE stream: fractional, huge, tiny, signed-zero, infinite and NaN operands; + - * / must be the
 	// correctly rounded result bit for bit, for every broadcast pattern incl. rank-0 operands on either side
 	pool := []float64{3, 7, 0.1, -2.5, 1e-3, 3e38, 2e38, 1e-40, 5e-324, 1.7e308, -0.0, 0, math.Inf(1), math.Inf(-1), math.NaN(), 10, 1.0 / 3, 49, -7, 6e-8, 16777217, 0.3}
